@@ -474,7 +474,7 @@ def h_glue(eng, lang, K, F):
         f = int(eng.fresh_int(0, F - 1, 'file'))
         unit, msg = _unit(lang, kind, files[f], i)
         filtered = False
-        if msg is not None and lang in ('java', 'kotlin'):
+        if msg is not None:
             filtered = bool(eng.fresh_bool('filtered'))
         if filtered:
             # the user-supplied pattern removes this diagnostic's header line
@@ -493,6 +493,10 @@ def h_glue(eng, lang, K, F):
     crash = bool(eng.fresh_bool('crash'))
     if crash:
         text += CRASH_TRAILER[lang]
+        if bool(eng.fresh_bool('filter_also_matches_the_stack_trace')):
+            # a user filter that happens to match lines of the internal stack trace must not hide the crash
+            filt += [re.escape(l) for l in CRASH_TRAILER[lang].split('\n') if l.strip()]
+            eng.event('filter-matches-trace')
     overflow = False
     if lang == 'groovy' and not crash:
         # groovyc may print a StackOverflowError without compiler frames: a crash only when no diagnostic was printed
